@@ -31,7 +31,7 @@ PROPS = {
         "proved": ["C02_refines_hoistAll", "C02_refines_partial", "C02_counterexample", "C02_space_not_invented", "C02_space_kept",
                    "C02_successor_skips_whitespace", "C02_pinned",
                    "C02_transcription_pinned (T1: control structure and calls of 51 functions of generator.go)"],
-        "monitored": ["every batch of generated code compiles", "rendered bytes / error / trace = Gen.run (model)", "= Denote.run (specification)"],
+        "monitored": ["hand-written static fixtures also cover body-less switch clauses and a class / script first used inside the block of a call", "every batch of generated code compiles", "rendered bytes / error / trace = Gen.run (model)", "= Denote.run (specification)"],
         "partial": ["Go type checking of generated code is observed, not proved", "expressions are oracle calls"],
         "trusted_base": ["Go compiler", "the oracle vocabulary harness/c02oracle and the harness's value tables"],
         "assumptions": STD_ASSUME,
@@ -225,10 +225,10 @@ PROPS = {
                 "15 components x every fault offset (stride for documents > 600 bytes in quick) x 2 modes, each followed by a healthy render; "
                 "cancelled context. Non-trivial = a fault inside the document / output larger than the buffer.",
         "exhaustive": True,
-        "proved": ["C10_prefix", "C10_nil_full", "C10_fault_reported", "C10_step_error", "C10_ctx", "C10_pool",
+        "proved": ["C10_unchecked_silent_stuck", "C10_silent_zero_reported", "C10_prefix", "C10_nil_full", "C10_fault_reported", "C10_step_error", "C10_ctx", "C10_pool",
                    "whole templates (Denote, every tree and environment): a failing render has written a prefix of the document and evaluated a prefix of the expressions of the render without failures (C10_template_prefix); no error reported => the complete document (C10_template_nil_full); nothing is written, evaluated or emitted after a failure (C10_template_frozen)",
                    "C10_transcription_pinned (T1: control structure and calls of buffer.go:Buffer.Flush, buffer.go:Buffer.Write, buffer.go:Buffer.WriteString)"],
-        "monitored": ["a writer that silently stops accepting bytes (no error): the render ends, and returns nil only if the writer got the whole document (Buffer.Write, Buffer.WriteString, generated template; sizes 100-9000, limits 0 / 10 / 4096)", "a component that fails by itself (also inside a Flush block) reports an error and has written a proper prefix of its non-failing variant", "the concurrent phase shared with C14 (race-built child: overlapping renders incl. CSS components and failed handler requests, every result = the render alone)", "bufio model = real runtime.Buffer (bytes received, per-operation errors)", "prefix / nil-full / fault-reported / error-line / after-failure predicates on real renders"],
+        "monitored": ["runtime.Buffer = bufio model also for writers that break the io.Writer contract (silent short / zero writes)", "a writer that silently stops accepting bytes (no error): the render ends, and returns nil only if the writer got the whole document (Buffer.Write, Buffer.WriteString, generated template; sizes 100-9000, limits 0 / 10 / 4096)", "a component that fails by itself (also inside a Flush block) reports an error and has written a proper prefix of its non-failing variant", "the concurrent phase shared with C14 (race-built child: overlapping renders incl. CSS components and failed handler requests, every result = the render alone)", "bufio model = real runtime.Buffer (bytes received, per-operation errors)", "prefix / nil-full / fault-reported / error-line / after-failure predicates on real renders"],
         "partial": [],
         "trusted_base": ["bufio.Writer, sync.Pool"],
         "assumptions": STD_ASSUME + ["the writer honours the io.Writer contract (a short write returns an error)"],
@@ -500,7 +500,7 @@ PROPS = {
         "exhaustive": True,
         "proved": ["C05_main (DeclSafe of the sanitised pair, all inputs, all url.Parse behaviours)", "C05_name", "C05_styleAttr", "T1 pins by decide",
                    "C05_transcription_pinned (T1: control structure and calls of runtime.go:SanitizeCSS)"],
-        "monitored": ["model = real safehtml.SanitizeCSS, templ.SanitizeCSS, SanitizeStyleAttributeValues (map, KV)", "scanner predicate on real outputs incl. rendered <style> text"],
+        "monitored": ["style attribute of a generated template as the HTML tokenizer decodes it = the sanitised declaration (known finding: escaped twice)", "the pair in ten other container forms (named maps, slices, funcs, pointers): sanitised or refused", "model = real safehtml.SanitizeCSS, templ.SanitizeCSS, SanitizeStyleAttributeValues (map, KV)", "scanner predicate on real outputs incl. rendered <style> text"],
         "partial": [],
         "trusted_base": ["CSS Syntax 3 declaration scanner spec (Spec/CssScan.lean)", "net/url.Parse as a parameter"],
         "assumptions": STD_ASSUME,
@@ -532,7 +532,7 @@ PROPS = {
         "proved": ["C03_inliteral (all three quote kinds, all byte strings)", "C03_bare_string", "C03_json_html_safe", "C03_attr", "C03_fname",
                    "table coverage / entry correctness by decide over the regenerated tables",
                    "C03_transcription_pinned (T1: control structure and calls of scripttemplate.go:jsonEncodeParam, scriptelement.go:scriptContent)"],
-        "monitored": ["models = real runtime.ScriptContent*, json.Marshal, templ.SafeScript*", "lexer predicate on real rendered documents for 11 positions",
+        "monitored": ["the same expression text in several positions of one script element = the concatenation of the single-position renders", "models = real runtime.ScriptContent*, json.Marshal, templ.SafeScript*", "lexer predicate on real rendered documents for 11 positions",
                       "parser's in-literal flag of every {{ }} = the JS source lexer's, on generated scripts"],
         "partial": ["the parser's quote tracker is checked against the JS source lexer per input, not proved; known finding for regex literals / ${ } / <!--",
                     "full JSON value round trip (Json.parse) is stated for strings only; containers are covered by the < > & freedom theorem"],
@@ -611,7 +611,7 @@ PROPS = {
                    "C04_else: any other input is replaced by the failure URL",
                    "C04_schemes_pinned / C04_failedURL_pinned: the tables regenerated from url.go equal the statement's lists",
                    "C04_transcription_pinned (T1: control structure and calls of url.go:URL)"],
-        "monitored": ["href / action supplied through spread attributes (known finding)", "model = real templ.URL on every explored string", "okPair(s, templ.URL(s)) evaluated in Lean on the real outputs"],
+        "monitored": ["href / action of a generated template as the HTML tokenizer reads it back = what templ.URL returned (all pairs of adjacent special characters)", "templ.URL from 16 goroutines = templ.URL alone", "href / action supplied through spread attributes (known finding)", "model = real templ.URL on every explored string", "okPair(s, templ.URL(s)) evaluated in Lean on the real outputs"],
         "partial": ["'href/action only through the safe-URL type' is a Go type-checker fact: observed by C02's compiled batches (negative program), not proved"],
         "trusted_base": ["strings.IndexRune/ContainsRune on ASCII = byte search; strings.EqualFold against ASCII literals modelled with simple folding (U+017F, U+212A)",
                          "WHATWG URL scheme-state specification transcribed by hand (Whatwg.scheme)"],
